@@ -464,18 +464,17 @@ class WebSocketApp:
 
         def check() -> bool:
             if self.ping_timeout and self.keep_running:
-                has_timeout_expired = (
-                    time.time() - self.last_ping_tm > self.ping_timeout
-                )
-                has_pong_not_arrived_after_last_ping = (
-                    self.last_pong_tm - self.last_ping_tm < 0
-                )
+                # the ping thread updates these concurrently: judge one consistent snapshot
+                last_ping_tm = self.last_ping_tm
+                last_pong_tm = self.last_pong_tm
+                has_timeout_expired = time.time() - last_ping_tm > self.ping_timeout
+                has_pong_not_arrived_after_last_ping = last_pong_tm - last_ping_tm < 0
                 has_pong_arrived_too_late = (
-                    self.last_pong_tm - self.last_ping_tm > self.ping_timeout
+                    last_pong_tm - last_ping_tm > self.ping_timeout
                 )
 
                 if (
-                    self.last_ping_tm
+                    last_ping_tm
                     and has_timeout_expired
                     and (
                         has_pong_not_arrived_after_last_ping
